@@ -177,3 +177,30 @@ def module_globals(relpath):
     if real != want:
         raise AnchorLost("module %s is imported from %s, not from %s" % (modname, real, want))
     return mod, vars(mod)
+
+
+def constructor_default(relpath, clsname, attr):
+    """('found', value) if the class's __init__ assigns  self.<attr> = <literal>  (None, numbers, strings, empty or literal
+    containers); else None.  Used for instance fields a contract's stub does not declare (e.g. a field added by a change):
+    they take the value the REAL constructor gives them."""
+    try:
+        fn = function(relpath, clsname + '.__init__').node
+    except AnchorLost:
+        return None
+    found = None
+    for n in ast.walk(fn):
+        if isinstance(n, (ast.Assign, ast.AnnAssign)):
+            targets = n.targets if isinstance(n, ast.Assign) else [n.target]
+            for t in targets:
+                if isinstance(t, ast.Attribute) and isinstance(t.value, ast.Name) and t.value.id == 'self' and t.attr == attr \
+                        and n.value is not None:
+                    v = n.value
+                    if isinstance(v, ast.Call) and isinstance(v.func, ast.Name) and v.func.id in ('dict', 'list', 'set') and \
+                            not v.args and not v.keywords:
+                        found = ('found', {'dict': dict, 'list': list, 'set': set}[v.func.id]())
+                    else:
+                        try:
+                            found = ('found', ast.literal_eval(v))
+                        except Exception:
+                            return None
+    return found
